@@ -3,6 +3,7 @@ package main
 
 import (
 	"fmt"
+	"strings"
 
 	"github.com/lyraproj/pcore/pcore"
 	"github.com/lyraproj/pcore/px"
@@ -289,6 +290,11 @@ func run(c px.Context, cfg *lib.Config, res *lib.Result) {
 					}
 					if has(b, "Struct") && has(cc, "Hash") {
 						tags = append(tags, "trans-through-struct-accepts-hash-rule")
+					}
+					if key := "violations.transitive." + strings.Join(tags, ","); res.Distribution[key] >= 3 {
+						// Violate keeps three of a group: the others are only counted (wording a million of them costs)
+						res.Distribution[key]++
+						continue
 					}
 					res.Violate(lib.Violation{Clause: "transitive", What: fmt.Sprintf("%s accepts %s, which accepts %s, but the first does not accept the last%s", u.Text[a], u.Text[b], u.Text[cc], lat.Legend(u.Specs[a], u.Specs[b], u.Specs[cc])),
 						Input: map[string]interface{}{"kind": "trans", "a": spec(a), "b": spec(b), "c": spec(cc)}, Tags: tags})
